@@ -643,6 +643,11 @@ def mk_sink(S, direct):
     schema = SObj(None, kind="Schema", tag="s0") if direct else None
     if direct:
         S.assume(SInt(B.length) == 0)
+    # a pyarrow Schema is a sized object: its truth value is "has at least one field", and a response schema may have
+    # none (a method returning None, a stream with an empty output schema)
+    n_fields = S.int("schema_field_count")
+    S.assume(n_fields >= 0)
+    S.handlers["Schema.__len__"] = lambda S, sch: n_fields
     me = SObj(wire._ClientLogSink, _buffer=B, _writer=writer, _schema=schema, _server_id=sid)
 
     def write_message_batch(S, w, sch, msg, server_id=None):
@@ -675,8 +680,10 @@ def _native_sink_run(ops):
                 m = Message.info(f"m{i}")
                 emitted.append(m)
                 sink(m)
-            elif op == "flush":
-                sink.flush_contents(f"writer{i}", "schema")
+            elif op in ("flush", "flush_empty_schema"):
+                import pyarrow as _pa
+
+                sink.flush_contents(f"writer{i}", _pa.schema([]) if op == "flush_empty_schema" else _pa.schema([("x", _pa.int64())]))
             else:
                 sink.reset()
             got = [m for _, m in written] + list(sink._buffer)
@@ -690,8 +697,8 @@ def _native_sink_run(ops):
 def search_sink(ob, seed):
     import itertools
 
-    for n in range(1, 6):
-        for ops in itertools.product(("call", "flush", "reset"), repeat=n):
+    for n in range(1, 5):
+        for ops in itertools.product(("call", "flush", "flush_empty_schema", "reset"), repeat=n):
             p = _native_sink_run(list(ops))
             if p:
                 return {"ops": list(ops)}, ReplayResult(True, p)
